@@ -48,6 +48,17 @@ fn run_case(case: &Value) -> Value {
             Err(p) => out["tok_panic"] = json!(p),
         }
     }
+    if case["fragment"].as_bool().unwrap_or(false) {
+        match guarded(|| a2lfile::load_fragment(text, a2ml.clone())) {
+            Err(p) => out["panic"] = json!(p),
+            Ok(Ok(_)) => out["ok"] = json!(true),
+            Ok(Err(e)) => {
+                out["ok"] = json!(false);
+                out["e"] = err_class(&e);
+            }
+        }
+        return out;
+    }
     match guarded(|| a2lfile::load_from_string(text, a2ml.clone(), strict)) {
         Err(p) => {
             out["panic"] = json!(p);
@@ -110,6 +121,7 @@ pub fn run(args: &Args) {
             Err(p) => json!({"id": case["id"], "panic": p}),
         };
         out.line(&r);
+        out.flush();
         n += 1;
     }
     out.flush();
